@@ -15,6 +15,10 @@ DEFAULT = {"maxh": 262144, "maxb": 1073741824}
 
 
 def run(chk, replay=None):
+    # the incremental chunked decoder, transcribed (spec/ReceiverOps.tla): every segmentation of a corpus of chunked
+    # bodies on the model (outcome independent of the cuts, and the grammar's), model bound to the real decoder
+    from checks import recv_model
+    recv_model.model_check(chk, "C02")
     rng = random.Random(chk.seed)
     corpus = framing_gen.corpus(False, rng)
     sent = framing_gen.sentences() + framing_gen.framing_variants()
